@@ -13,13 +13,17 @@ CONSTANTS MaxAdds,      \* adds per direction
           MaxFee,       \* number of fee updates
           MaxDisc,      \* number of disconnections
           QLen,         \* link capacity
+          MaxCrash,     \* number of crash / restart events
           ChanType
 
 VARIABLES q,      \* [<<from side, to side>> -> Seq(message)]
           agree,  \* FALSE once a receiver's view of a signed commitment differs from the signer's
-          nAdd, nFee, nDisc, hist, ptc
+          nAdd, nFee, nDisc, hist, ptc,
+          uidc,   \* [endpoint -> id of the last ChannelMonitorUpdate it generated (all written synchronously)]
+          savedS, \* [endpoint -> the ChannelManager snapshot last written, or <<>>]
+          nCrash
 
-mvars == <<cvars, q, agree, nAdd, nFee, nDisc, hist, ptc>>
+mvars == <<cvars, q, agree, nAdd, nFee, nDisc, hist, ptc, uidc, savedS, nCrash>>
 
 E1 == <<1, 1>>
 E2 == <<1, 2>>
@@ -45,10 +49,13 @@ Init0 ==
   /\ q = [d \in {<<1, 2>>, <<2, 1>>} |-> <<>>]
   /\ agree = TRUE
   /\ nAdd = [e \in EPs |-> 0] /\ nFee = 0 /\ nDisc = 0 /\ hist = <<>> /\ ptc = [e \in EPs |-> 0]
+  /\ uidc = [e \in EPs |-> 0] /\ savedS = [e \in EPs |-> <<>>] /\ nCrash = 0
 
 Push(e, m) == Len(q[Q(e)]) < QLen /\ q' = [q EXCEPT ![Q(e)] = Append(@, m)]
 H(op) == hist' = Append(hist, op)
 Same == UNCHANGED <<agree, nAdd, nFee, nDisc, ptc>>
+Dur == UNCHANGED <<uidc, savedS, nCrash>>                 \* no monitor update, no restart
+Upd(e) == uidc' = [uidc EXCEPT ![e] = @ + 1] /\ UNCHANGED <<savedS, nCrash>>   \* one monitor update
 
 \* ---- local decisions
 MAdd(e) == \E a \in Amounts :
@@ -58,14 +65,14 @@ MAdd(e) == \E a \in Amounts :
   /\ Push(e, [k |-> "add", id |-> nAdd[e], amt |-> a, hash |-> 10 * e[2] + nAdd[e]])
   /\ nAdd' = [nAdd EXCEPT ![e] = @ + 1]
   /\ H([op |-> "send", from |-> e[2] - 1, to |-> Other(e[2]) - 1, amt |-> a])
-  /\ UNCHANGED <<agree, nFee, nDisc, ptc>>
+  /\ UNCHANGED <<agree, nFee, nDisc, ptc>> /\ Dur
 
 MRemove(e) == \E h \in hs[e], r \in {"fulfill", "fail"} :
   /\ h.dir = "in" /\ h.rem = -1 /\ h.add = 4 /\ redo[e].upd = {} /\ ~redo[e].cs
   /\ SendRemove(e, h.id, r)
   /\ Push(e, [k |-> "rem", id |-> h.id, res |-> r])
   /\ H([op |-> IF r = "fulfill" THEN "claim" ELSE "fail", hash |-> h.hash])
-  /\ Same
+  /\ Same /\ (IF r = "fulfill" THEN Upd(e) ELSE Dur)
 
 MFee(e) == \E r \in {1000} :
   /\ nFee < MaxFee /\ ChanType # "zerofee" /\ par[1].funder = e[2] /\ redo[e].upd = {} /\ ~redo[e].cs
@@ -73,7 +80,7 @@ MFee(e) == \E r \in {1000} :
   /\ Push(e, [k |-> "fee", rate |-> r])
   /\ nFee' = nFee + 1
   /\ H([op |-> "fee", node |-> e[2] - 1, feerate |-> r])
-  /\ UNCHANGED <<agree, nAdd, nDisc, ptc>>
+  /\ UNCHANGED <<agree, nAdd, nDisc, ptc>> /\ Dur
 
 \* retransmissions owed after a reconnection
 MResend(e) == \E u \in redo[e].upd :
@@ -82,18 +89,18 @@ MResend(e) == \E u \in redo[e].upd :
        [] u[1] = "rem" -> LET h == Get(e, "in", u[2]) IN
                             SendRemove(e, h.id, h.res) /\ Push(e, [k |-> "rem", id |-> h.id, res |-> h.res])
        [] u[1] = "fee" -> SendFee(e, u[2]) /\ Push(e, [k |-> "fee", rate |-> u[2]])
-  /\ UNCHANGED hist /\ Same
+  /\ UNCHANGED hist /\ Same /\ Dur
 
 MSendCS(e) ==
   /\ LET c == IF redo[e].cs THEN lastCS[e] ELSE Commit(e, FALSE) IN
        SendCS(e, c) /\ Push(e, [k |-> "cs", c |-> c])
-  /\ UNCHANGED hist /\ Same
+  /\ UNCHANGED hist /\ Same /\ (IF redo[e].cs THEN Dur ELSE Upd(e))
 
 MSendRAA(e) ==
   /\ SendRAA(e, IF ptc[e] >= 2 THEN ptc[e] - 1 ELSE 0, ptc[e] + 1)
   /\ Push(e, [k |-> "raa"])
   /\ ptc' = [ptc EXCEPT ![e] = IF redo[e].raa THEN @ ELSE @ + 1]
-  /\ UNCHANGED <<hist, agree, nAdd, nFee, nDisc>>
+  /\ UNCHANGED <<hist, agree, nAdd, nFee, nDisc>> /\ Dur
 
 \* ---- delivery of the head of the inbound link
 MDeliver(e) ==
@@ -108,30 +115,53 @@ MDeliver(e) ==
      /\ q' = [q EXCEPT ![QIn(e)] = Tail(@)]
   /\ H([op |-> "deliver", from |-> Other(e[2]) - 1, to |-> e[2] - 1])
   /\ UNCHANGED <<nAdd, nFee, nDisc, ptc>>
+  /\ (IF Head(q[QIn(e)]).k \in {"cs", "raa"} THEN Upd(e) ELSE Dur)
 
 MDisconnect ==
-  /\ nDisc < MaxDisc
+  /\ nDisc < MaxDisc /\ \A e \in EPs : link[e] # "closed"
   /\ Disconnect(EPs)
   /\ q' = [d \in DOMAIN q |-> <<>>]
   /\ nDisc' = nDisc + 1
   /\ H([op |-> "disconnect", a |-> 0, b |-> 1])
-  /\ UNCHANGED <<agree, nAdd, nFee, ptc>>
+  /\ UNCHANGED <<agree, nAdd, nFee, ptc>> /\ Dur
 
 MReconnect ==
+  /\ \A e \in EPs : link[e] # "closed"
   /\ Reconnect(EPs)
   /\ q' = [d \in DOMAIN q |->
             <<[k |-> "reest", nl |-> cnt[<<1, d[1]>>].recvCS + 1, nr |-> cnt[<<1, d[1]>>].recvRAA]>>]
   /\ H([op |-> "reconnect", a |-> 0, b |-> 1])
-  /\ Same
+  /\ Same /\ Dur
 
-MDone == (\A d \in DOMAIN q : q[d] = <<>>) /\ UNCHANGED mvars
+\* ---- the application writes the ChannelManager; later the node dies and restarts from the last
+\* written manager and its (synchronously written) monitor
+MSave(e) ==
+  /\ MaxCrash > 0 /\ nCrash < MaxCrash /\ e = E2 /\ savedS[e] = <<>>     \* one snapshot, one side (symmetric)
+  \* the manager is written when no revocation is owed: the implementation generates the
+  \* revoke_and_ack together with accepting the signature and may only *hold* it (asynchronous
+  \* persistence); snapshots taken while something is held are not used (DESIGN.md, C10 limits)
+  /\ cnt[e].recvCS = cnt[e].sentRAA
+  /\ savedS' = [savedS EXCEPT ![e] = [Snapshot({e}) EXCEPT !.mon = [x \in {e} |-> [mon[x] EXCEPT !.last = uidc[x]]]]]
+  /\ UNCHANGED <<cvars, q, agree, nAdd, nFee, nDisc, hist, ptc, uidc, nCrash>>
+
+MCrash(e) ==
+  /\ nCrash < MaxCrash /\ savedS[e] # <<>>
+  /\ Restart({e}, {Peer(e)}, savedS[e], [x \in {e} |-> uidc[x]])
+  /\ q' = [d \in DOMAIN q |-> <<>>]
+  /\ nCrash' = nCrash + 1
+  /\ ptc' = [ptc EXCEPT ![e] = Len(savedS[e].pts[e])]
+  /\ H([op |-> "crash", node |-> e[2] - 1])
+  /\ UNCHANGED <<agree, nAdd, nFee, nDisc, uidc, savedS>>
+
+MDone == ((\A d \in DOMAIN q : q[d] = <<>>) \/ (\E e \in EPs : link[e] = "closed")) /\ UNCHANGED mvars
 
 MCNext == \/ \E e \in EPs : MAdd(e) \/ MRemove(e) \/ MFee(e) \/ MResend(e) \/ MSendCS(e) \/ MSendRAA(e) \/ MDeliver(e)
+                              \/ MSave(e) \/ MCrash(e)
           \/ MDisconnect \/ MReconnect \/ MDone
 
 MCSpec == Init0 /\ [][MCNext]_mvars
 
-View == <<cvars, q, agree, nAdd, nFee, nDisc, ptc>>
+View == <<cvars, q, agree, nAdd, nFee, nDisc, ptc, uidc, savedS, nCrash>>
 
 \* ---- properties
 Agreement == agree
